@@ -41,6 +41,7 @@ def run(ctx):
     ctx.rule("C10.3", "guards and push/pop discipline of the recursive cluster (shared with C08.3/C08.4)")
     ctx.rule("C10.4", "follow_cnames: loops return None; a result only if a record matched or a link was followed")
     ctx.rule("C10.5", "aliases are not followed for CNAME / ANY questions (zone: !CNAME.matches(qtype); cache: qtype != CNAME and direct miss)")
+    ctx.rule("C10.6", "where the nested resolution itself stopped at an unresolved alias (LocalResolutionResult::CNAME), the alias target reported onwards is the nested result's cname_question (the end of the chain returned), never the first link again")
     ctx.decline("all alias graphs over all sources; 'followed only by records of the asked type at the final target' is a value property")
 
     sites = 0
@@ -110,6 +111,51 @@ def run(ctx):
             ctx.check(ok_t and ok_n, "C10.2", "%s:follow-up-question#%d" % (A.short(root), n), "Question{name: alias target, qtype/qclass of the own question}",
                       "follow-up question built as name=%s qtype=%s qclass=%s" % (A.show(d["name"])[:100], A.show(d["qtype"]), A.show(d["qclass"])), f.loc(b, i))
     ctx.floor("C10.2", "follow-up questions", n, 4)
+
+    # ---------------------------------------------------------------- C10.6
+    f = prog.body_of(LOCAL)
+    r = A.Resolver(f)
+    c = A.Conds(f, r)
+    def nested_cname_fact(fct):
+        return fct[0] == "is" and fct[1] == "CNAME" and any(x[0] == "call" and x[1] == LOCAL for x in A.walk(fct[2]))
+    def target_kind(x):
+        px = A.peel(x)
+        if any(y[0] == "call" and y[1] == LOCAL for y in A.walk(px)):
+            if A.last_field(px) == "cname_question" or (A.last_field(px) == "name" and A.last_field(A.peel(px)[1]) == "cname_question"):
+                return "nested-tail"
+            return None
+        if A.last_field(px) == "cname":
+            return "first-link"
+        return None
+    leaves = []
+    live = f.reachable(0)
+    for b, i, st in f.assigns():
+        if True:
+            if b not in live or st["rv"].get("k") != "agg" or st["rv"].get("ak") != "adt":
+                continue
+            e = r.rvalue(st["rv"], (b, i))
+            if e[0] != "agg":
+                continue
+            d = dict(e[3])
+            x = None
+            if e[1].endswith("option::Option") and e[2] == "Some":
+                x = d["0"]
+            elif e[1] == T + "Question":
+                x = d["name"]
+            elif e[1].endswith("LocalResolutionResult") and e[2] == "CNAME":
+                x = d["cname_question"]
+            k = target_kind(x) if x is not None else None
+            if k:
+                leaves.append((b, i, k, x))
+    for b, i, k, x in leaves:
+        nested = any(nested_cname_fact(fct) for fct in c.facts_on_all_paths(b))
+        key = "resolve_local:alias-target@%s#%d" % ("after-nested-CNAME" if nested else "no-nested-CNAME", sum(1 for l in leaves if l[0] < b))
+        ctx.check(not (nested and k != "nested-tail"), "C10.6", key,
+                  "alias target = %s" % k,
+                  "the nested resolution ended at an unresolved alias, but the target carried on is the first link %s (records repeat / alias followed twice)" % A.show(x)[:100],
+                  f.loc(b, i))
+    ctx.floor("C10.6", "alias-target values in resolve_local", len(leaves), 5)
+    ctx.floor("C10.6", "alias targets taken after a nested CNAME result", sum(1 for b, i, k, x in leaves if k == "nested-tail"), 2)
 
     # ---------------------------------------------------------------- C10.3
     cluster.check_guards(ctx, "C10.3", prog)
